@@ -369,15 +369,37 @@ func DisplacementOracle() clustermc.Oracle {
 		}
 		qa := ComputeQueueAllocUpTo(t, "none")
 		one := Quant{GPU: 1, CPU: float64(ReqOf(w.Pods[0]).MilliCPU), Mem: float64(ReqOf(w.Pods[0]).Memory)}
+		// The displacement is judged NET of the victim: evicting v frees one GPU in v's queue and in
+		// every ancestor v shares with w, so only the queues of w's chain that v is not under grow.
+		// (A department that sits exactly at its limit or quota does not obstruct a reclaim between two
+		// of its own leaf queues.) withinDeserved (no victim taken into account) keeps its old meaning
+		// for the non-preemptible exemption below.
 		withinDeserved := true
 		for _, a := range Ancestors(qs, w.Queue) {
 			q := queueQuota(qs[a], "gpu")
 			if q >= 0 && qa.Before[a].GPU+one.GPU > q+1e-9 {
 				withinDeserved = false
 			}
-			if lim := queueLimit(qs[a], "gpu"); lim >= 0 && qa.Before[a].GPU+one.GPU > lim+1e-9 {
-				return nil // obstructed by a limit
+		}
+		net := func(v *JobRef) (within, limitOK bool) {
+			under := map[string]bool{}
+			for _, a := range Ancestors(qs, v.Queue) {
+				under[a] = true
 			}
+			within, limitOK = true, true
+			for _, a := range Ancestors(qs, w.Queue) {
+				after := qa.Before[a].GPU + one.GPU
+				if under[a] {
+					after -= 1
+				}
+				if q := queueQuota(qs[a], "gpu"); q >= 0 && after > q+1e-9 {
+					within = false
+				}
+				if lim := queueLimit(qs[a], "gpu"); lim >= 0 && after > lim+1e-9 {
+					limitOK = false
+				}
+			}
+			return
 		}
 		var out []engine.Violation
 		// preempt: a strictly lower-priority preemptible workload in the same queue
@@ -386,10 +408,14 @@ func DisplacementOracle() clustermc.Oracle {
 			if v == w || !v.Preemptible {
 				continue
 			}
+			within, limitOK := net(v)
+			if !limitOK {
+				continue // obstructed by a limit even after this victim is gone
+			}
 			if v.Queue == w.Queue && v.Priority < w.Priority {
 				hasPreemptVictim = true
 			}
-			if v.Queue != w.Queue {
+			if v.Queue != w.Queue && within {
 				_, lv := leveled(qs, w.Queue, v.Queue)
 				if lv != "" {
 					if q := queueQuota(qs[lv], "gpu"); q >= 0 && qa.Before[lv].GPU > q+1e-9 {
@@ -408,11 +434,11 @@ func DisplacementOracle() clustermc.Oracle {
 			t.Stats["displacement_cases"]++
 			out = append(out, engine.Violation{Property: "C05", Key: "C05/no-preemption-of-lower-priority-same-queue",
 				Message: fmt.Sprintf("pending %s (queue %s, priority %d) was neither bound nor nominated although a strictly lower-priority preemptible workload of its own queue is running", w.Name, w.Queue, w.Priority)})
-		} else if hasReclaimVictim && withinDeserved && !placed {
+		} else if hasReclaimVictim && !placed {
 			t.Stats["displacement_cases"]++
 			out = append(out, engine.Violation{Property: "C05", Key: "C05/no-reclaim-from-over-quota-queue",
 				Message: fmt.Sprintf("pending %s keeps queue %s within its deserved quota but was neither bound nor nominated although preemptible pods of over-quota queues are running", w.Name, w.Queue)})
-		} else if (hasPreemptVictim || (hasReclaimVictim && withinDeserved)) && placed {
+		} else if (hasPreemptVictim || hasReclaimVictim) && placed {
 			t.Stats["displacement_cases"]++
 		}
 		return out
